@@ -115,7 +115,7 @@ func runE2E(c *core.Ctx) {
 // the records of the files come out one file after the other, in order.
 func runE2EFiles(c *core.Ctx) {
 	nf := 2 + c.Rng.Intn(3)
-	var paths []string
+	var paths, texts []string
 	var want []string
 	var shape []int
 	for f := 0; f < nf; f++ {
@@ -134,13 +134,39 @@ func runE2EFiles(c *core.Ctx) {
 		os.WriteFile(p, []byte(sb.String()), 0o644)
 		defer os.Remove(p)
 		paths = append(paths, p)
+		texts = append(texts, sb.String())
+	}
+	// one case in three: one of the files is a named pipe filled by another process
+	pipeAt := -1
+	if c.Idx%3 == 1 {
+		pipeAt = c.Rng.Intn(nf)
 	}
 	for _, cfg := range [][2]int{{1, 100}, {4, 3}, {16, 1}} {
-		args := append([]string{"--no-progressbar", "--max-cpu", fmt.Sprint(cfg[0]), "--batch-size", fmt.Sprint(cfg[1])}, paths...)
+		runPaths := append([]string{}, paths...)
+		if pipeAt >= 0 {
+			fifo := paths[pipeAt] + ".fifo.fasta"
+			os.Remove(fifo)
+			if err := syscall.Mkfifo(fifo, 0o600); err == nil {
+				go func(text string) {
+					if f, err := os.OpenFile(fifo, os.O_WRONLY, 0); err == nil {
+						f.WriteString(text)
+						f.Close()
+					}
+				}(texts[pipeAt])
+				runPaths[pipeAt] = fifo
+				defer os.Remove(fifo)
+			}
+		}
+		args := append([]string{"--no-progressbar", "--max-cpu", fmt.Sprint(cfg[0]), "--batch-size", fmt.Sprint(cfg[1])}, runPaths...)
 		res := cmdx.Run(filepath.Join(c.BinDir, "obiconvert"), args, cmdx.Opt{})
+		if pipeAt >= 0 {
+			if f, err := os.OpenFile(runPaths[pipeAt], os.O_RDONLY|syscall.O_NONBLOCK, 0); err == nil {
+				f.Close() // unblocks the feeder if the command never opened the pipe
+			}
+		}
 		c.Count("evaluations", 1)
 		c.Count("command_runs", 1)
-		det := map[string]any{"files_record_counts": shape, "config": cfg, "exit": res.Exit, "stderr": cmdx.Diag(res.Stderr, 1500)}
+		det := map[string]any{"files_record_counts": shape, "config": cfg, "named_pipe_at": pipeAt, "exit": res.Exit, "stderr": cmdx.Diag(res.Stderr, 1500)}
 		cls := "no-empty-file"
 		for i, n := range shape {
 			if n == 0 {
@@ -168,7 +194,7 @@ func runE2EFiles(c *core.Ctx) {
 			c.Violate("files:output-unparsable", "the output is not FASTA", det)
 			continue
 		}
-		c.Key("files/%v/%v", shape, cfg)
+		c.Key("files/%v/%v/%d", shape, cfg, pipeAt)
 		if d := itx.CompareSeq(gen.IDsOf(got), want); d != "" {
 			det["got"] = len(got)
 			det["want"] = len(want)
